@@ -189,7 +189,7 @@ PROPS: Dict[str, Dict[str, Any]] = {
             "quick_n": 6000, "thorough_n": 100000, "fields": ["out", "trace"]},
     "C06": {"modules": ["KodaModel.Properties.C06", "KodaModel.Properties.C06Sync", "KodaModel.Properties.C06Src"],
             "level_note": "C06_src_*: for every validator whose two methods are translated from the source on each run (scalar "
-                          "pipeline, union loop, list, set, uniform tuple, n-tuple, map, DictValidatorAny, RecordValidator) "
+                          "pipeline, union loop, list, set, uniform tuple, n-tuple, map, the five record-shaped validators) "
                           "the *translated* sync method and the *translated* async method agree whenever the sync one does "
                           "not raise its guard error (children related by Rel) - the src_* theorems composed with the "
                           "step-level agreement lemmas.  C06_agree: for every tree and fuel, when the sync call does not raise its guard error both modes return "
@@ -200,7 +200,8 @@ PROPS: Dict[str, Dict[str, Any]] = {
                          "C06_agree", "C06_agree_Run", "C06_never_skipped", "seqStep_noAssert", "loopItems_agree",
                          "recordStep_agree", "unionStep_agree", "mapStep_agree", "ntupleStep_agree", "seqStep_agree",
                          "run_mono", "Run.unique", "C06_src_scalar", "C06_src_union", "C06_src_list", "C06_src_set",
-                         "C06_src_utuple", "C06_src_ntuple", "C06_src_map", "C06_src_dictany", "C06_src_record"],
+                         "C06_src_utuple", "C06_src_ntuple", "C06_src_map", "C06_src_dictany", "C06_src_record",
+                         "C06_src_typeddict", "C06_src_class"],
             "stream": "core", "opts": {"salt": "c06", "async_rate": 0.12},
             "quick_n": 10000, "thorough_n": 300000, "fields": ["out", "trace"]},
     "C14": {"theorems": ["C14_root", "C14_list_later_stage", "scalarStep_prov", "seqStep_prov", "ntupleStep_prov",
